@@ -36,6 +36,45 @@ type PostGenerator interface {
 	PostGenerate(r *Rand, sc *Scenario)
 }
 
+// ProcessExitProperty is implemented by a property for which the emulator ending the whole process
+// (os.Exit) while a scenario runs is itself a violation (C11: the only deliberate stop is an undefined
+// opcode, and the harness never lets one execute). For every other property a dying worker is a
+// harness fault.
+type ProcessExitProperty interface {
+	ProcessExitClass() string
+}
+
+// ExecInChild runs one scenario file in a child process (simcheck -inner). done=false means the child
+// ended without reporting: the process was ended from inside the scenario.
+func ExecInChild(selfExe, path string) (done bool, status int, output string) {
+	cmd := exec.Command(selfExe, "-inner", path)
+	cmd.Env = append(os.Environ(), "GOMAXPROCS=1")
+	out, _ := cmd.CombinedOutput()
+	if cmd.ProcessState != nil {
+		status = cmd.ProcessState.ExitCode()
+	}
+	return strings.Contains(string(out), "INNER-DONE"), status, string(out)
+}
+
+// Inner is the child side of ExecInChild.
+func Inner(p Property, path string) int {
+	sc, err := LoadScenario(path)
+	if err != nil {
+		fmt.Printf("INNER-DONE harness %v\n", err)
+		return 2
+	}
+	r := SafeExecute(p, sc)
+	switch {
+	case r.Harness != "":
+		fmt.Printf("INNER-DONE harness %s\n", r.Harness)
+	case r.Violation != nil:
+		fmt.Printf("INNER-DONE violation %s\n", r.Violation.Class)
+	default:
+		fmt.Printf("INNER-DONE held\n")
+	}
+	return 0
+}
+
 // PanicClassifier is installed by package machine (avoids an import cycle): it tells whether
 // a recovered panic originated in emulator code and where.
 var PanicClassifier func(stack string) (emulator bool, site string)
@@ -67,6 +106,8 @@ type WorkerViolation struct {
 	// the partition of the worker process that saw it (its earlier scenarios are From, From+Stride, ...)
 	From   int `json:"from"`
 	Stride int `json:"stride"`
+	// ProcessExit: the worker process was ended while this scenario ran (not minimised in-process)
+	ProcessExit bool `json:"process_exit,omitempty"`
 }
 
 // WorkerSummary is what a worker process prints.
@@ -167,6 +208,8 @@ func RunWorker(p Property, seed uint64, tier string, from, to, stride int, diges
 	s := newSummary()
 	s.from, s.stride = from, stride
 	for i := from; i < to; i += stride {
+		// journal: if the emulator ends the process, the parent learns which scenario was running
+		fmt.Fprintf(os.Stderr, "JOURNAL %d\n", i)
 		sc := ScenarioFor(p, seed, i, tier)
 		r := SafeExecute(p, sc)
 		s.add(i, r, digests)
@@ -250,18 +293,54 @@ func RunBatch(cfg BatchConfig) int {
 		wg.Add(1)
 		go func(k int) {
 			defer wg.Done()
-			args := []string{"-worker", "-prop", id, "-tier", cfg.Tier, "-seed", fmt.Sprint(cfg.Seed),
-				"-from", fmt.Sprint(k), "-to", fmt.Sprint(budget), "-stride", fmt.Sprint(w)}
-			cmd := exec.Command(cfg.SelfExe, args...)
-			cmd.Env = append(os.Environ(), "GOMAXPROCS=1")
+			from := k
 			var out, errb bytes.Buffer
-			cmd.Stdout = &out
-			cmd.Stderr = &errb
-			err := cmd.Run()
+			for restarts := 0; ; restarts++ {
+				args := []string{"-worker", "-prop", id, "-tier", cfg.Tier, "-seed", fmt.Sprint(cfg.Seed),
+					"-from", fmt.Sprint(from), "-to", fmt.Sprint(budget), "-stride", fmt.Sprint(w)}
+				cmd := exec.Command(cfg.SelfExe, args...)
+				cmd.Env = append(os.Environ(), "GOMAXPROCS=1")
+				out.Reset()
+				errb.Reset()
+				cmd.Stdout = &out
+				cmd.Stderr = &errb
+				err := cmd.Run()
+				if err == nil {
+					break
+				}
+				// the worker process ended: by the emulator (a violation for a ProcessExitProperty, checked
+				// again in a fresh child before it is believed) or by something else (harness fault)
+				last := -1
+				for _, ln := range strings.Split(errb.String(), "\n") {
+					if strings.HasPrefix(ln, "JOURNAL ") {
+						fmt.Sscanf(ln, "JOURNAL %d", &last)
+					}
+				}
+				pe, isPE := p.(ProcessExitProperty)
+				if !isPE || last < 0 || restarts >= 400 {
+					mu.Lock()
+					procErr = append(procErr, fmt.Sprintf("worker %d: %v\nstdout tail: %s\nstderr tail: %s", k, err, tail(out.String(), 600), tail(errb.String(), 1500)))
+					mu.Unlock()
+					return
+				}
+				status := -1
+				if cmd.ProcessState != nil {
+					status = cmd.ProcessState.ExitCode()
+				}
+				mu.Lock()
+				total.Violations = append(total.Violations, WorkerViolation{Index: last, From: k, Stride: w, ProcessExit: true,
+					V: &Violation{Class: pe.ProcessExitClass(), At: 0, Detail: fmt.Sprintf("the emulator ended the whole process (exit status %d) while this scenario ran; its last words: %s", status, strings.TrimSpace(tail(out.String()+errb.String(), 300)))}})
+				total.ClassCount[pe.ProcessExitClass()]++
+				mu.Unlock()
+				from = last + w
+				if from >= budget {
+					out.Reset()
+					break
+				}
+			}
 			mu.Lock()
 			defer mu.Unlock()
-			if err != nil {
-				procErr = append(procErr, fmt.Sprintf("worker %d: %v\nstdout tail: %s\nstderr tail: %s", k, err, tail(out.String(), 600), tail(errb.String(), 1500)))
+			if out.Len() == 0 {
 				return
 			}
 			// the summary is the last line of stdout (the emulator may print)
@@ -328,7 +407,12 @@ func RunBatch(cfg BatchConfig) int {
 		sc := ScenarioFor(p, cfg.Seed, firstUnknown.Index, cfg.Tier)
 		full := sc.Clone()
 		full.Expect = firstUnknown.V
-		min := Minimise(p, sc, firstUnknown.V.Class, 300)
+		var min *Scenario
+		if firstUnknown.ProcessExit {
+			min = full.Clone() // executing it in this process would end this process
+		} else {
+			min = Minimise(p, sc, firstUnknown.V.Class, 300)
+		}
 		if min.Expect == nil {
 			// the failure did not occur again while minimising (it depends on more than the scenario:
 			// the history of the process, or it is nondeterministic): keep the unminimised scenario
@@ -345,6 +429,11 @@ func RunBatch(cfg BatchConfig) int {
 		}
 		reproduced := false
 		var out []byte
+		if firstUnknown.ProcessExit {
+			done, _, o := ExecInChild(cfg.SelfExe, replayPath)
+			reproduced, out = !done, []byte(o)
+			attempts = 0
+		}
 		for a := 0; a < attempts && !reproduced; a++ {
 			cmd := exec.Command(cfg.SelfExe, "-replay", replayPath, "-prop", id)
 			cmd.Env = append(os.Environ(), "GOMAXPROCS=1")
@@ -548,6 +637,22 @@ func Replay(p Property, path string) int {
 		for k := 0; k < pl.Count; k++ {
 			SafeExecute(p, ScenarioFor(p, pl.Seed, pl.From+k*pl.Stride, pl.Tier))
 		}
+	}
+	if pe, ok := p.(ProcessExitProperty); ok && sc.Expect != nil && sc.Expect.Class == pe.ProcessExitClass() {
+		self, err := os.Executable()
+		if err != nil {
+			fmt.Printf("HARNESS-FAULT %v\n", err)
+			return 2
+		}
+		done, status, o := ExecInChild(self, path)
+		if done {
+			fmt.Printf("NO-VIOLATION the replayed scenario ran to its end in a child process on this tree (%s)\n", strings.TrimSpace(tail(o, 120)))
+			return 0
+		}
+		fmt.Printf("violation class=%s at=0: the emulator ended the child process (exit status %d): %s\n", sc.Expect.Class, status, strings.TrimSpace(tail(o, 300)))
+		fmt.Printf("REPRODUCED exactly (class and position as recorded)\n")
+		fmt.Printf("VIOLATION property=%s replay=%s\n", sc.Property, path)
+		return 1
 	}
 	r := SafeExecute(p, sc)
 	if r.Harness != "" {
